@@ -140,6 +140,139 @@ def param_mutators(prog):
     return res
 
 
+CLAUSE_ATTRS = {'_on_complete': 'all', '_on_success': 'state',
+                '_on_error': 'state', '_on_skip': 'state'}
+
+
+def _spec_provenance(cfg, node, e, depth=0):
+    """Where a publish spec expression comes from: {'fresh'} (built for this
+    call), {'cached:all'} (the on-complete clause's spec object, shared by
+    every completion of the task spec), {'cached:state'} (the spec object of
+    the clause chosen by the completion state), {'none'}; None = unknown."""
+    if isinstance(e, ast.Constant) and e.value is None:
+        return {'none'}
+    if isinstance(e, (ast.IfExp, ast.BoolOp)):
+        out = set()
+        for x in ([e.body, e.orelse] if isinstance(e, ast.IfExp)
+                  else e.values):
+            sub = _spec_provenance(cfg, node, x, depth)
+            if sub is None:
+                return None
+            out |= sub
+        return out
+    if isinstance(e, ast.Call):
+        nm = U.call_name(e)
+        if nm == 'PublishSpec':
+            return {'fresh'}
+        if nm == 'get_publish' and isinstance(e.func, ast.Attribute):
+            r = e.func.value
+            if isinstance(r, ast.Call) and U.call_name(r) == 'super':
+                return {'fresh'}
+            if e.args or e.keywords:
+                return None
+            d = dotted(r)
+            if d and d.startswith('self.') and d[5:] in CLAUSE_ATTRS:
+                return {'cached:' + CLAUSE_ATTRS[d[5:]]}
+            if isinstance(r, ast.Name) and depth < 3:
+                out = set()
+                for dv in U.reaching_defs(cfg, r.id)[node.id]:
+                    if dv == 'unbound':
+                        continue
+                    dd = dotted(dv) if not isinstance(dv, str) else None
+                    if dd and dd.startswith('self.') and \
+                            dd[5:] in CLAUSE_ATTRS:
+                        out.add('cached:' + CLAUSE_ATTRS[dd[5:]])
+                    else:
+                        return None
+                return out or None
+        return None
+    if isinstance(e, ast.Name) and depth < 3:
+        out = set()
+        for dv in U.reaching_defs(cfg, e.id)[node.id]:
+            if dv == 'unbound':
+                continue
+            if isinstance(dv, str):
+                return None
+            dn = cfg.node_of(dv)
+            sub = _spec_provenance(cfg, dn, dv, depth + 1)
+            if sub is None:
+                return None
+            out |= sub
+        return out or None
+    return None
+
+
+def shared_publish_specs(ctx, rule):
+    """Spec objects live in the per-process spec cache and are shared by
+    every execution of a definition.  PublishSpec.merge() extends its
+    receiver in place, so the receiver must be an object built for this
+    call, or the spec object of the clause the completion state selected
+    (what is merged into it is the same for every completion in that
+    state).  Merging state-dependent content into the on-complete spec
+    makes a later completion in another state publish variables of a
+    clause that did not fire."""
+    prog = ctx.prog
+    n_sites = 0
+    for q, f in sorted(prog.funcs.items()):
+        if not q.startswith('mistral.'):
+            continue
+        cfg = None
+        for n in own_nodes(f.node):
+            if not (isinstance(n, ast.Call) and
+                    isinstance(n.func, ast.Attribute) and
+                    n.func.attr == 'merge' and len(n.args) == 1):
+                continue
+            cfg = cfg or ctx.cfg(f)
+            node = cfg.node_of(n)
+            recv = _spec_provenance(cfg, node, n.func.value)
+            arg = _spec_provenance(cfg, node, n.args[0])
+            if recv is None or arg is None:
+                raise AnalysisError(
+                    'C05.R10: cannot tell where the publish specs of %s in '
+                    '%s come from' % (norm(n, 80), q))
+            n_sites += 1
+            bad = 'cached:all' in recv and (arg - {'cached:all', 'none'})
+            rule.check(not bad, ctx.construct(f, n),
+                       'the receiver of this in-place merge can be the '
+                       'cached on-complete publish spec, and what is merged '
+                       'into it (%s) depends on the completion state: the '
+                       'variables of one clause leak into every later '
+                       'completion of this task spec' % ', '.join(
+                           sorted(arg)), ctx.loc(f, n))
+    if n_sites < 2:
+        raise AnalysisError('C05.R10: only %d publish spec merges found'
+                            % n_sites)
+    # merge() extends the receiver only: the left operand of every
+    # merge_dicts in it is derived from self
+    mg = prog.func('mistral.lang.v2.publish.PublishSpec.merge')
+    mcs = [c for c in own_nodes(mg.node) if isinstance(c, ast.Call) and
+           U.call_name(c) == 'merge_dicts']
+    if len(mcs) < 3:
+        raise AnalysisError('C05.R10: PublishSpec.merge lost its '
+                            'merge_dicts calls')
+    for c in mcs:
+        rule.check('spec_to_merge' not in U.names_in(c.args[0]) and
+                   'spec_to_merge' in U.names_in(c.args[1]),
+                   ctx.construct(mg, c),
+                   'PublishSpec.merge writes into the spec it was given '
+                   '(merge_dicts updates its left operand in place)',
+                   ctx.loc(mg, c))
+    # nothing else assigns the sections of a publish spec
+    for q, f in sorted(prog.funcs.items()):
+        if q in ('mistral.lang.v2.publish.PublishSpec.__init__',
+                 'mistral.lang.v2.publish.PublishSpec.merge'):
+            continue
+        if not q.startswith('mistral.lang.v2.publish.'):
+            continue
+        for n in own_nodes(f.node):
+            if isinstance(n, ast.Attribute) and isinstance(
+                    n.ctx, ast.Store) and n.attr in (
+                    '_branch', '_global', '_atomic'):
+                rule.fail(ctx.construct(f, n),
+                          'a publish spec section is assigned outside '
+                          '__init__/merge', ctx.loc(f, n))
+
+
 def run(ctx):
     _run(ctx)
     r9 = ctx.rule('R9', 'the upstream tasks whose data a task sees are all '
@@ -149,6 +282,9 @@ def run(ctx):
     from mstatic.rules import shared as _sh
     _sh.inbound_before_publish(ctx, r9)
     _sh.requires_read_with_defaults(ctx, r9)
+    r10 = ctx.rule('R10', 'cached publish spec objects are only extended '
+                   'with content of their own scope', 'ownership/dataflow')
+    shared_publish_specs(ctx, r10)
 
 
 def _run(ctx):
@@ -621,6 +757,7 @@ def _run(ctx):
     r8 = ctx.rule('R8', 'contexts that are accumulated over a loop carry '
                   'what earlier iterations contributed', 'dataflow')
     accumulators(ctx, r8)
+    versioned_merges_only(ctx, r8)
 
 
 # (function, accumulated variable): the variable is initialised before a
@@ -679,6 +816,51 @@ def accumulators(ctx, rule):
         ctx.construct(eu, extra='merged into ctx, ctx returned'),
         'upstream contexts are not merged into the returned context',
         ctx.loc(eu))
+
+
+CTX_PRODUCERS = ('evaluate_upstream_context',
+                 'evaluate_task_outbound_context')
+
+
+def versioned_merges_only(ctx, rule):
+    """With context versioning enabled, the contexts of different tasks
+    are combined by version (merge_context_by_version, reached through
+    evaluate_upstream_context(..., additive_context=...)).  A plain
+    merge_dicts of task contexts lets the operand order decide, i.e. the
+    order in which the DB lists end tasks / upstream tasks: it is only
+    acceptable on the arm where versioning is switched off."""
+    prog = ctx.prog
+    n = 0
+    for q, f in sorted(prog.funcs.items()):
+        if not (q.startswith('mistral.workflow.') or
+                q.startswith('mistral.engine.')):
+            continue
+        cs = [c for c in own_nodes(f.node) if isinstance(c, ast.Call) and
+              U.call_name(c) == 'merge_dicts']
+        if not cs:
+            continue
+        cfg = ctx.cfg(f)
+        for c in cs:
+            txt = ' '.join(norm(U.canon_expr(f.node, a), 400)
+                           for a in c.args)
+            if not any(p_ + '(' in txt for p_ in CTX_PRODUCERS):
+                continue
+            n += 1
+            node = cfg.node_of(c)
+            off = U.guarded(cfg, node,
+                            'cfg.CONF.context_versioning.enabled', False) \
+                or U.guarded(cfg, node,
+                             'CONF.context_versioning.enabled', False)
+            rule.check(off, ctx.construct(f, c),
+                       'task contexts are combined with a plain merge_dicts '
+                       'on a path where context versioning is enabled: the '
+                       'later operand wins whatever the versions say, so the '
+                       'result depends on the order the tasks are listed',
+                       ctx.loc(f, c))
+    if n < 2:
+        raise AnalysisError('C05: only %d plain merges of task contexts '
+                            'found (expected the two versioning-off arms)'
+                            % n)
 
 
 def clean_rebind(ctx, f, name_node):
